@@ -165,3 +165,7 @@ pub(crate) fn deserilized_with_orig_bytes<R: BufRead + Seek, T>(
     raw.as_mut_ref().seek(SeekFrom::Start(after)).unwrap();
     Ok((value, original_bytes))
 }
+
+#[cfg(kani)]
+#[path = "/verif/kani/ser_utils.rs"]
+mod verif_kani_ser_utils;
